@@ -76,6 +76,15 @@ func (e *Engine) findFunction(name string) *ssa.Function {
 	return best
 }
 
+func (e *Engine) findByShort(short string) *ssa.Function {
+	for _, name := range e.contracts.order {
+		if e.contracts.fns[name].Short == short {
+			return e.findFunction(name)
+		}
+	}
+	return nil
+}
+
 // initialState builds the symbolic entry state.
 func (e *Engine) initialState() *State {
 	st := &State{heap: map[int]Value{}, declSet: map[string]bool{}, visits: map[string]int{}}
